@@ -1239,3 +1239,89 @@ pub fn tiny_schema() -> SchemaModel {
     let mut rng = Rng::new(7);
     gen_schema(&mut rng, &SchemaOpts { rich: false, plain: false })
 }
+
+// ======================================================================== introspection JSON
+
+fn intro_type_ref(t: &TypeRef, m: &SchemaModel) -> serde_json::Value {
+    use serde_json::json;
+    let kind = match m.kind_of(&t.name) {
+        Kind::Object => "OBJECT",
+        Kind::Interface => "INTERFACE",
+        Kind::Union => "UNION",
+        Kind::Enum => "ENUM",
+        Kind::Input => "INPUT_OBJECT",
+        Kind::Scalar => "SCALAR",
+    };
+    let mut v = json!({"kind": kind, "name": t.name, "ofType": null});
+    if t.list {
+        if t.inner_nonnull {
+            v = json!({"kind": "NON_NULL", "name": null, "ofType": v});
+        }
+        v = json!({"kind": "LIST", "name": null, "ofType": v});
+    }
+    if t.nonnull {
+        v = json!({"kind": "NON_NULL", "name": null, "ofType": v});
+    }
+    v
+}
+
+/// The schema as the JSON result of the standard introspection query (`{"__schema": ...}`);
+/// `wrap_data` puts it below a `data` member as servers answer it.  Everything the SDL
+/// rendering carries except applied custom directives (introspection has no place for them).
+pub fn render_introspection(m: &SchemaModel, pretty: bool) -> String {
+    use serde_json::{Value, json};
+    let named = |kind: &str, name: &str| json!({"kind": kind, "name": name, "ofType": null});
+    let input_value = |a: &ArgDef| json!({"name": a.name, "description": null, "type": intro_type_ref(&a.ty, m), "defaultValue": null});
+    let field = |f: &FieldDef| {
+        json!({
+            "name": f.name,
+            "description": f.desc,
+            "args": f.args.iter().map(input_value).collect::<Vec<_>>(),
+            "type": intro_type_ref(&f.ty, m),
+            "isDeprecated": f.deprecated,
+            "deprecationReason": if f.deprecated { json!("old") } else { Value::Null },
+        })
+    };
+    let mut types: Vec<Value> = Vec::new();
+    for t in &m.types {
+        let v = match t.kind {
+            Kind::Scalar => json!({"kind": "SCALAR", "name": t.name, "description": t.desc, "fields": null, "inputFields": null, "interfaces": null, "enumValues": null, "possibleTypes": null}),
+            Kind::Enum => json!({"kind": "ENUM", "name": t.name, "description": t.desc, "fields": null, "inputFields": null, "interfaces": null,
+                "enumValues": t.values.iter().map(|v| json!({"name": v, "description": null, "isDeprecated": false, "deprecationReason": null})).collect::<Vec<_>>(), "possibleTypes": null}),
+            Kind::Union => json!({"kind": "UNION", "name": t.name, "description": t.desc, "fields": null, "inputFields": null, "interfaces": null, "enumValues": null,
+                "possibleTypes": t.members.iter().map(|x| named("OBJECT", x)).collect::<Vec<_>>()}),
+            Kind::Input => json!({"kind": "INPUT_OBJECT", "name": t.name, "description": t.desc, "fields": null,
+                "inputFields": t.fields.iter().map(|f| json!({"name": f.name, "description": f.desc, "type": intro_type_ref(&f.ty, m), "defaultValue": null})).collect::<Vec<_>>(),
+                "interfaces": null, "enumValues": null, "possibleTypes": null}),
+            Kind::Interface => json!({"kind": "INTERFACE", "name": t.name, "description": t.desc,
+                "fields": t.fields.iter().map(field).collect::<Vec<_>>(), "inputFields": null,
+                "interfaces": t.implements.iter().map(|x| named("INTERFACE", x)).collect::<Vec<_>>(), "enumValues": null,
+                "possibleTypes": m.possible(&t.name).iter().map(|x| named("OBJECT", x)).collect::<Vec<_>>()}),
+            Kind::Object => json!({"kind": "OBJECT", "name": t.name, "description": t.desc,
+                "fields": t.fields.iter().map(field).collect::<Vec<_>>(), "inputFields": null,
+                "interfaces": t.implements.iter().map(|x| named("INTERFACE", x)).collect::<Vec<_>>(), "enumValues": null, "possibleTypes": null}),
+        };
+        types.push(v);
+    }
+    for s in ["ID", "String", "Int", "Float", "Boolean"] {
+        types.push(json!({"kind": "SCALAR", "name": s, "description": null, "fields": null, "inputFields": null, "interfaces": null, "enumValues": null, "possibleTypes": null}));
+    }
+    let bool_nn = json!({"kind": "NON_NULL", "name": null, "ofType": named("SCALAR", "Boolean")});
+    let mut directives: Vec<Value> = vec![
+        json!({"name": "skip", "description": null, "locations": ["FIELD", "FRAGMENT_SPREAD", "INLINE_FRAGMENT"], "args": [{"name": "if", "description": null, "type": bool_nn, "defaultValue": null}]}),
+        json!({"name": "include", "description": null, "locations": ["FIELD", "FRAGMENT_SPREAD", "INLINE_FRAGMENT"], "args": [{"name": "if", "description": null, "type": bool_nn, "defaultValue": null}]}),
+        json!({"name": "deprecated", "description": null, "locations": ["FIELD_DEFINITION", "ARGUMENT_DEFINITION", "INPUT_FIELD_DEFINITION", "ENUM_VALUE"],
+            "args": [{"name": "reason", "description": null, "type": named("SCALAR", "String"), "defaultValue": "\"No longer supported\""}]}),
+    ];
+    for d in &m.directives {
+        directives.push(json!({"name": d.name, "description": null, "locations": d.locations, "args": d.arg.iter().map(input_value).collect::<Vec<_>>()}));
+    }
+    let v = json!({"__schema": {
+        "queryType": {"name": m.query},
+        "mutationType": m.mutation.as_ref().map(|n| json!({"name": n})),
+        "subscriptionType": m.subscription.as_ref().map(|n| json!({"name": n})),
+        "types": types,
+        "directives": directives,
+    }});
+    if pretty { serde_json::to_string_pretty(&v).unwrap() + "\n" } else { serde_json::to_string(&v).unwrap() + "\n" }
+}
